@@ -12,6 +12,10 @@
 import PsutilModel.Proofs.C17Users
 import PsutilModel.Proofs.C17Parts
 import PsutilModel.Proofs.C17Ext
+import PsutilModel.Proofs.C17Mnt
+import PsutilModel.Proofs.C17Mac
+import PsutilModel.Proofs.C17Py
+import PsutilModel.Proofs.C17Shape
 import PsutilModel.Model.C17Gen
 namespace Psutil.C17
 open Spec
@@ -276,9 +280,51 @@ theorem C17_mac_fits_current (data : Bytes) (hlen : data.length ≤ 255) :
     (∀ w ∈ macWrites mcfg data, w.1 < mcfg.bufSize) ∧ (data ≠ [] → 1 ≤ mcfg.step * data.length) :=
   C17_mac_fits mcfg mcfg_good data hlen
 
-/-- the formatted text of a concrete address equals the kernel's `aa:bb:…` rendering (the
-    general equality is checked by the correspondence on every generated address) -/
+/-- **C17_mac_text** (round 2) — the formatting loop AS TRANSCRIBED (the `sprintf(ptr, "%02x:", data[n] & 0xff)`
+    stores, `ptr += 3`, the final `*--ptr = 0`, over whatever `buf` held before) yields, for every
+    non-empty hardware address of at most 255 bytes, exactly the kernel's `xx:xx:…:xx`: two
+    lower-case hex digits per byte, colon separated, `3·n − 1` characters (17 for 6 bytes). -/
+theorem C17_mac_text (c : MCfg) (hg : c.Good) (data : Bytes) (hne : data ≠ []) (hlen : data.length ≤ 255)
+    (hb : ∀ b ∈ data, b < 256) :
+    macFormat c data = some (macText data) ∧ (macText data).length = 3 * data.length - 1
+    ∧ (data.length = 6 → (macText data).length = 17) := by
+  refine ⟨macFormat_text c hg data hne (by omega) hb, macText_length data hne, ?_⟩
+  intro h6
+  rw [macText_length data hne, h6]
+
+theorem C17_mac_text_current (data : Bytes) (hne : data ≠ []) (hlen : data.length ≤ 255) (hb : ∀ b ∈ data, b < 256) :
+    macFormat mcfg data = some (macText data) := (C17_mac_text mcfg mcfg_good data hne hlen hb).1
+
+/-- every character of the text is a lower-case hex digit or the colon -/
+theorem C17_mac_text_alphabet (data : Bytes) (hb : ∀ b ∈ data, b < 256) :
+    ∀ x ∈ macText data, x = 58 ∨ (48 ≤ x ∧ x ≤ 57) ∨ (97 ≤ x ∧ x ≤ 102) := by
+  have hx : ∀ n, n < 16 → (48 ≤ hexLower n ∧ hexLower n ≤ 57) ∨ (97 ≤ hexLower n ∧ hexLower n ≤ 102) := by
+    intro n hn; unfold hexLower; split <;> omega
+  induction data with
+  | nil => simp [macText]
+  | cons b r ih =>
+    have hb' := hb b (by simp)
+    cases r with
+    | nil =>
+      intro x hxm
+      simp only [macText, List.mem_cons, List.not_mem_nil, or_false] at hxm
+      rcases hxm with rfl | rfl
+      · exact Or.inr (hx _ (by omega))
+      · exact Or.inr (hx _ (by omega))
+    | cons b2 r2 =>
+      intro x hxm
+      simp only [macText, List.cons_append, List.nil_append, List.mem_cons] at hxm
+      rcases hxm with rfl | rfl | rfl | hxm
+      · exact Or.inr (hx _ (by omega))
+      · exact Or.inr (hx _ (by omega))
+      · exact Or.inl rfl
+      · exact ih (fun y hy => hb y (by simp [hy])) x (by simpa [macText] using hxm)
+
+/-- non-vacuity, and the sign-extension counterexample: without the `& 0xff` a byte ≥ 0x80 prints
+    eight hex digits and the text is wrong -/
 example : macFormat mcfg [0, 255, 16, 171, 205, 239] = some (macText [0, 255, 16, 171, 205, 239]) := by decide
+theorem C17_mac_text_unmasked_counterexample :
+    macFormat { mcfg with masked := false } [128] ≠ some (macText [128]) := by decide
 
 /-! ## cpu_affinity_get: the doubling loop -/
 
@@ -687,15 +733,34 @@ theorem C17_mntent_tuple (c : DCfg) (hg : c.Good) (m : Mnt) : mntTuple c m = [m.
 example : mntLine dcfg.effBuf (renderMnt ⟨[47, 100, 32, 97], [47, 109, 92], [101, 120, 116, 52], [114, 119, 9]⟩)
     = some ⟨[47, 100, 32, 97], [47, 109, 92], [101, 120, 116, 52], [114, 119, 9]⟩ := by decide
 
-/-- FULL statement of the field decoding (NOT proved in this round — `_partial` is the concrete
-    `example` above plus the `mntrt` correspondence family, which checks it on random entries
-    against the Lean model AND the real extension): every entry with non-empty, NUL-free fields
-    whose device does not start with '#', rendered the way the kernel prints it, decodes to
-    itself whenever the line fits the buffer. -/
+/-- FULL statement of the field decoding: every entry with non-empty, NUL-free fields whose device
+    does not start with '#', rendered the way the kernel prints it (space, tab, newline, backslash
+    as \040 \011 \012 \134), decodes to itself whenever the line fits the buffer.  (Stated in
+    the extension round, PROVED in round 2: `C17_mntent_roundtrip` below.) -/
 def C17_mntent_roundtrip_Full : Prop :=
   ∀ (B : Nat) (m : Mnt), m.dev ≠ [] → m.dir ≠ [] → m.typ ≠ [] → m.opts ≠ [] → m.dev.head? ≠ some 35 →
     (∀ c ∈ m.dev ++ m.dir ++ m.typ ++ m.opts, c ≠ 0) → (renderMnt m).length < B →
     mntLine B (renderMnt m) = some m
+
+/-- **C17_mntent_roundtrip** — render → decode is the identity for EVERY mount entry (any bytes
+    in the four fields, the escaped characters included).  The NUL-freeness of the statement is
+    not even needed by the model. -/
+theorem C17_mntent_roundtrip : C17_mntent_roundtrip_Full :=
+  fun B m h1 h2 h3 h4 h35 _ hB => mntLine_renderMnt B m h1 h2 h3 h4 h35 hB true
+
+/-- … also for a last line without newline, and through the C loop with the buffer in effect:
+    `cext.disk_partitions()` on the one-line file returns the entry it was rendered from -/
+theorem C17_mntent_roundtrip_current (m : Mnt) (h1 : m.dev ≠ []) (h2 : m.dir ≠ []) (h3 : m.typ ≠ [])
+    (h4 : m.opts ≠ []) (h35 : m.dev.head? ≠ some 35) (hl : (renderMnt m).length ≤ 4095) (lastTerm : Bool) :
+    diskPartitionsC dcfg [renderMnt m] lastTerm = [[m.dev, m.dir, m.typ, m.opts]] := by
+  have hB : (renderMnt m).length < dcfg.effBuf := by have := dcfg_good.buf; omega
+  have := mntLine_renderMnt dcfg.effBuf m h1 h2 h3 h4 h35 hB (lastTerm || decide (0 + 1 < 1))
+  simp only [diskPartitionsC, List.zipIdx_cons, List.zipIdx_nil, List.filterMap_cons, List.filterMap_nil,
+    List.length_cons, List.length_nil, this, List.map_cons, List.map_nil, C17_mntent_tuple dcfg dcfg_good]
+
+/-- decoding is not injective on ARBITRARY lines — `\\134` and `\\\\` both give a backslash — which
+    is why the round trip is stated from the entry, not from the line -/
+example : decodeName 9 [92, 49, 51, 52] = decodeName 9 [92, 92] := by decide
 
 /-! ## linux_sysinfo(): format units vs member widths -/
 
@@ -763,5 +828,179 @@ theorem C17_getpriority_errno_independent_current (e1 e2 : Nat) (k : Except Nat 
 theorem C17_getpriority_stale_errno_counterexample :
     C17.getPriority { resetBefore := false, testMinusOne := true } 3 (.ok (-1)) = .osError 3
     ∧ C17.getPriority { resetBefore := false, testMinusOne := false } 3 (.ok 5) = .osError 3 := by decide
+
+/-! ## round 2 — users(): the decode SHAPE of users.c is a pinned fact -/
+
+/-- translator obligation: in psutil_users each of the three strings is produced by
+    `PyUnicode_DecodeFSDefaultAndSize(ut->F, strnlen(ut->F, sizeof(ut->F)))` straight from the record
+    (the host additionally by the "localhost" literal), these and the two `strcmp`s are the ONLY
+    uses of the three members, and there is no `char x[N]` local.  The extractor is total: any other
+    decoding shape (local copies, another length expression, another function) changes the value
+    and this theorem stops building (seeded change C17-2). -/
+theorem ushape_good : ushape.Canonical := ⟨by decide, by decide, by decide, by decide⟩
+
+theorem ucfg_rest_good : ucfg.RestGood := ⟨by decide, by decide, by decide, by decide, by decide, by decide⟩
+
+/-- **C17_users_fields_cut_shape** — `C17_users_fields_cut` for the configuration whose cut
+    semantics is READ OFF the source shape: for exactly the canonical shape, every utmp file gives
+    the specified rows.  (`ucfgS` does not depend on the older regex flags.) -/
+theorem C17_users_fields_cut_shape (rs : List Utmp) (h : ∀ r ∈ rs, r.WF)
+    (trail beyond : Bytes) (ht : trail.length < 384) :
+    C17.users ucfgS (renderAll rs ++ trail) beyond = Spec.users rs
+    ∧ ∀ s ∈ usersReads ucfgS (renderAll rs ++ trail) beyond, s ≤ 384 :=
+  have hg : ucfgS.Good := withShape_good ucfg ucfg_rest_good ushape ushape_good
+  ⟨C17_users_fields_cut ucfgS hg rs h trail beyond ht, C17_users_read_in_record ucfgS hg rs h trail beyond ht⟩
+
+/-- the parametric form: ANY base configuration, ANY canonical shape -/
+theorem C17_users_fields_cut_any_canonical (base : UCfg) (hb : base.RestGood) (s : UShape) (hs : s.Canonical)
+    (rs : List Utmp) (h : ∀ r ∈ rs, r.WF) (trail beyond : Bytes) (ht : trail.length < 384) :
+    C17.users (base.withShape s) (renderAll rs ++ trail) beyond = Spec.users rs :=
+  C17_users_fields_cut _ (withShape_good base hb s hs) rs h trail beyond ht
+
+/-- the shape of seeded change C17-2 (bounded copies into `char x[UT_…SIZE]` locals, then
+    `PyUnicode_DecodeFSDefault(local)`) is NOT a shape the model claims anything about … -/
+theorem C17_users_copy_shape_unclaimed :
+    decodeKind "ut_user" "PyUnicode_DecodeFSDefault(username)" = .other
+    ∧ ¬ ({ ushape with charLocals := ["charusername[UT_NAMESIZE]"] } : UShape).Canonical := by
+  refine ⟨by decide, fun h => ?_⟩
+  have := h.locals
+  simp at this
+
+/-- … and it is wrong: a PSUTIL_STRNCPY into a local of exactly the field's width keeps 31 of the
+    32 bytes of a full-width name (§3 `C17_strncpy_terminated`: the copy is `boundedCopy src n`) -/
+theorem C17_users_copy_shape_counterexample :
+    boundedCopy fullWidth.user 32 ≠ cut fullWidth.user ∧ (boundedCopy fullWidth.user 32).length = 31 := by
+  decide
+
+/-! ## round 2 — RootFsDeviceFinder -/
+
+/-- translator obligation: ask_proc_partitions skips 2 header lines, needs ≥ 4 fields, reads
+    major/minor/name at 0/1/3; ask_sys_dev_block keys on "DEVNAME="; all three strategies compare
+    with (self.major, self.minor) = (os.major, os.minor) of `/` and return "/dev/" + name; find()
+    tries them in the documented order, swallowing OSError, and checks the path exists -/
+theorem fcfg_good : fcfg.Good :=
+  ⟨by decide, by decide, by decide, by decide, by decide, by decide, by decide, by decide, by decide, by decide⟩
+
+/-- **C17_rootfs_strategies_agree** — on every tree in which /proc/partitions,
+    /sys/dev/block/M:m/uevent and /sys/class/block/*/dev show the same block devices (any devices,
+    any numbers, /sys/class/block listed in any order) the three strategies give the SAME answer:
+    `/dev/<name>` of the device whose number is that of `/`, or nothing if none has it. -/
+theorem C17_rootfs_strategies_agree (c : FCfg) (hg : c.Good) (ds cls : List BlockDev) (s : RootSys)
+    (h : Consistent ds cls s) :
+    runStrategy c s "ask_proc_partitions" = runStrategy c s "ask_sys_dev_block"
+    ∧ runStrategy c s "ask_sys_dev_block" = runStrategy c s "ask_sys_class_block"
+    ∧ runStrategy c s "ask_sys_class_block" =
+        (match rootOf ds s.major s.minor with | some d => .found (devPath d) | none => .nothing) := by
+  obtain ⟨h1, h2, h3⟩ := strategies_agree c hg ds cls s h
+  exact ⟨by rw [h1, h2], by rw [h2, h3], h3⟩
+
+/-- **C17_rootfs_find** — `RootFsDeviceFinder().find()` on such a tree: the root device's path if
+    it exists under /dev, otherwise None; never an exception. -/
+theorem C17_rootfs_find (c : FCfg) (hg : c.Good) (ds cls : List BlockDev) (s : RootSys) (h : Consistent ds cls s) :
+    rootFind c s = match rootOf ds s.major s.minor with
+      | some d => if s.pathExists (devPath d) then .found (devPath d) else .nothing
+      | none => .nothing := rootFind_consistent c hg ds cls s h
+
+theorem C17_rootfs_find_current (ds cls : List BlockDev) (s : RootSys) (h : Consistent ds cls s) :
+    rootFind fcfg s ≠ .indexError := by
+  rw [C17_rootfs_find fcfg fcfg_good ds cls s h]
+  cases rootOf ds s.major s.minor with
+  | none => simp
+  | some d => by_cases he : s.pathExists (devPath d) <;> simp [he]
+
+/-- non-vacuity: a concrete device list is well-formed and /proc/partitions' strategy finds sda1 (8:1) -/
+example :
+    askPartLines fcfg 8 1 (partLinesOf [⟨8, 0, 1000, [115, 100, 97]⟩, ⟨8, 1, 999, [115, 100, 97, 49]⟩])
+      = .found [47, 100, 101, 118, 47, 115, 100, 97, 49] := by
+  rw [askPartLines_consistent fcfg fcfg_good 8 1 _ (by
+    intro d hd
+    simp only [List.mem_cons, List.not_mem_nil, or_false] at hd
+    rcases hd with rfl | rfl <;> exact ⟨by decide, by unfold NoWs; decide, by decide⟩)]
+  decide
+
+/-- the code as it is, outside kernel-consistent trees: the strategies are only FALLBACKS of each
+    other — whatever sysfs says, an answer of /proc/partitions that exists under /dev wins
+    (characterisation, not a defect: the kernel never shows two names for one number) -/
+theorem C17_rootfs_first_strategy_wins (c : FCfg) (hg : c.Good) (s : RootSys) (p : Bytes)
+    (h : runStrategy c s "ask_proc_partitions" = .found p) (he : s.pathExists p = true) :
+    rootFind c s = .found p := by
+  unfold rootFind
+  rw [hg.order, hg.ex]
+  simp [findChain, h, he]
+
+/-! ## round 2 — net_if_stats() -/
+
+/-- translator obligation: net_if_duplex_speed tolerates EOPNOTSUPP/EINVAL with (DUPLEX_UNKNOWN = 0xff, 0);
+    duplex_map is {FULL 1 ↦ 2, HALF 0 ↦ 1, UNKNOWN 0xff ↦ 0}; a NIC failing with ENODEV is skipped;
+    the three calls are made in the order mtu, flags, duplex/speed; flags are joined with ',';
+    isup is 'running' in flags -/
+theorem tcfg_good : tcfg.Good := ⟨by decide, by decide, by decide, by decide, by decide, by decide, by decide⟩
+
+/-- **C17_netifstats_rows** — for every list of NICs and every combination of kernel answers
+    (each of the three ioctls succeeding or failing with any errno; any flags word, any MTU, any
+    16-bit speed halves, any duplex byte): net_if_stats() = the specification — NICs that vanished
+    (ENODEV) are left out, any other failure is raised as OSError with the kernel's errno, the others
+    are listed in order with isup = IFF_RUNNING, the documented duplex value, the 32-bit speed (0 if
+    unknown or ethtool unsupported), the MTU and the comma-joined names of the set flag bits. -/
+theorem C17_netifstats_rows (t : TCfg) (ht : t.Good) (e : ECfg) (he : e.castUnsigned = true)
+    (nics : List (Bytes × NicAns))
+    (hw : ∀ p ∈ nics, ∀ d hi lo, p.2.eth = .ok (d, hi, lo) → hi < 65536 ∧ lo < 65536) :
+    C17.netIfStats t e Spec.linuxIff 65535 nics = Spec.netIfStats nics [] :=
+  netIfStats_good t ht e he nics hw
+
+theorem C17_netifstats_rows_current (nics : List (Bytes × NicAns))
+    (hw : ∀ p ∈ nics, ∀ d hi lo, p.2.eth = .ok (d, hi, lo) → hi < 65536 ∧ lo < 65536) :
+    C17.netIfStats tcfg ecfg iffLinux Gen.C17.iffMask nics = Spec.netIfStats nics [] := by
+  rw [C17_iff_table, iffMask_good]
+  exact C17_netifstats_rows tcfg tcfg_good ecfg ecfg_good nics hw
+
+/-- the code as it is: a driver that reports a duplex byte other than 0 / 1 / 0xff makes
+    `duplex_map[duplex]` raise KeyError (a Python exception — allowed by the property; stated, not
+    claimed away) -/
+theorem C17_netifstats_unknown_duplex_KeyError :
+    C17.netIfStats tcfg ecfg iffLinux Gen.C17.iffMask [([101], ⟨.ok 1500, .ok 0x1043, .ok (2, 0, 1000)⟩)] = .keyError 2 := by
+  decide
+
+example : C17.netIfStats tcfg ecfg iffLinux Gen.C17.iffMask
+    [([108, 111], ⟨.ok 65536, .ok 0x49, .error 95⟩), ([120], ⟨.error 19, .ok 0, .ok (1, 0, 0)⟩)]
+    = .rows [([108, 111], ⟨true, 0, 0, 65536, ["up", "loopback", "running"]⟩)] := by
+  decide
+
+/-! ## round 2 — net_if_addrs() front end -/
+
+theorem wcfg_good : wcfg.Good := ⟨by decide, by decide, by decide, by decide, by decide⟩
+
+/-- **C17_netifaddrs_mac_padding** — an AF_LINK text with fewer than 6 groups is completed with
+    `:00` groups to exactly 6; one with 6 or more is left alone.  With `C17_mac_text`: a 6-byte
+    hardware address reaches the caller as the 17 characters the C loop wrote. -/
+theorem C17_netifaddrs_mac_padding (w : WCfg) (hg : w.Good) (a : Bytes) :
+    padMac w w.minSeps a = a ++ (List.replicate (5 - a.count 58) [58, 48, 48]).flatten
+    ∧ (5 ≤ a.count 58 → padMac w w.minSeps a = a) := by
+  have h := padMac_eq w hg w.minSeps a (by rw [hg.min]; omega)
+  refine ⟨h, fun h5 => ?_⟩
+  rw [h]
+  have : 5 - a.count 58 = 0 := by omega
+  simp [this]
+
+/-- **C17_netifaddrs_grouping** — for every list of platform rows: the list stored under a NIC name
+    is exactly that NIC's rows (MAC texts padded), sorted by family, rows of one family in the
+    order the kernel listed them (the sort is stable). -/
+theorem C17_netifaddrs_grouping (w : WCfg) (hg : w.Good) (raw : List AddrRow) (n : Bytes) :
+    ((netIfAddrs w raw).lookup n).getD [] = ((sortByFam raw).map (frontRow w)).filter (fun r => r.name = n)
+    ∧ (sortByFam raw).Pairwise (fun a b => a.fam ≤ b.fam)
+    ∧ ∀ f : Int, (sortByFam raw).filter (fun a => a.fam = f) = raw.filter (fun a => a.fam = f) := by
+  refine ⟨?_, (sortByFam_stable raw).1, (sortByFam_stable raw).2⟩
+  unfold netIfAddrs
+  rw [hg.key]
+  simp only [if_true]
+  have := group_lookup ((sortByFam raw).map (frontRow w)) n []
+  simpa using this
+
+example : netIfAddrs wcfg [⟨[101], 17, .str [48, 48, 58, 49, 49], .none, .none, .none⟩, ⟨[108], 2, .str [49], .none, .none, .none⟩,
+      ⟨[101], 2, .str [50], .none, .none, .none⟩]
+    = [([108], [⟨[108], 2, .str [49], .none, .none, .none⟩]),
+       ([101], [⟨[101], 2, .str [50], .none, .none, .none⟩,
+                ⟨[101], 17, .str [48, 48, 58, 49, 49, 58, 48, 48, 58, 48, 48, 58, 48, 48, 58, 48, 48], .none, .none, .none⟩])] := by
+  decide
 
 end Psutil.C17
